@@ -36,6 +36,12 @@ def configs(tier, seed):
                 out.append(dict(part='n_word', signed=signed, f0=f0, kbits=min(kb, N - 3), carrier='float', cells=1, N=N))
             for Fg in ((0, 2) if tier == 'quick' else (0, 1, 2, 5, 8)):
                 out.append(dict(part='n_frac', signed=signed, f0=f0, kbits=kb if f0 <= 4 else (14 if f0 <= 6 else 11), carrier='float', cells=1, Fg=Fg))
+    # the value supplied as a fixed-point object that sits in a format larger than the minimal one (and has a past)
+    for f0 in (0, 1, 2, 3):
+        for signed in (None, True, False):
+            out.append(dict(part='none', signed=signed, f0=f0, kbits=8, carrier='fxp', cells=1))
+            out.append(dict(part='n_word', signed=signed, f0=f0, kbits=5, carrier='fxp', cells=1, N=12))
+            out.append(dict(part='n_frac', signed=signed, f0=f0, kbits=8, carrier='fxp', cells=1, Fg=rng.choice((0, 2))))
     for f0 in (0, 1, 2):
         for signed in (None, False):
             out.append(dict(part='none', signed=signed, f0=f0, kbits=8 if tier == 'quick' else 10, carrier='float', cells=2))
@@ -59,7 +65,7 @@ def inputs(cfg):
     lo = 0 if cfg['signed'] is False else -m
     sp = {}
     for i in range(cfg['cells']):
-        if cfg['carrier'] == 'int':
+        if cfg['carrier'] in ('int', 'fxp'):
             sp['k%d' % i] = dict(kind='int', lo=lo, hi=m)
         else:
             sp['k%d' % i] = dict(kind='float', lo=lo, hi=m, exp=-cfg['f0'])
@@ -84,6 +90,13 @@ def run(F, cfg, inp):
         return _snap(F.Fxp(v, **kw))
     vals = [inp['k%d' % i] for i in range(cfg['cells'])]
     v = vals[0] if cfg['cells'] == 1 else list(vals)
+    if cfg['carrier'] == 'fxp':
+        # k * 2^-f0 held as the code k*4 of a 24-bit object with f0+2 fraction bits that was re-formatted once
+        src = F.Fxp(None, cfg['signed'] is not False, 20, cfg['f0'] + 1)
+        src.resize(n_word=24, n_frac=cfg['f0'] + 2)
+        src.set_val(T.ishl(vals[0], 2) if T.is_sym(vals[0]) else vals[0] * 4, raw=True)
+        src.reset()
+        v = src
     if p == 'none':
         x = F.Fxp(v, **kw)
     elif p == 'n_word':
@@ -124,6 +137,8 @@ def post(cfg, inp, ob):
         out.append(('no_overflow', not (st['overflow'] or st['underflow'])))
         return out
     vals = [inp['k%d' % i] for i in range(cfg['cells'])]
+    if cfg['carrier'] == 'fxp':
+        vals = [(vals[0], -cfg['f0'])]
     out.append(('n_cells', len(codes) == len(vals)))
     exact = SP.AND(*[SP.dy_eq((c, -f), SP.dy(v)) for c, v in zip(codes, vals)])
     n_int = n - f - int(s)
